@@ -1,6 +1,8 @@
 import PGM.Model.Dataset
 import PGM.Proofs.Domain
 /-! helper lemmas for C15 -/
+set_option linter.unusedVariables false
+set_option linter.unusedSectionVars false
 namespace PGM
 
 namespace Dom
@@ -22,17 +24,394 @@ def tableAt (D : Dataset α) (c : List Nat) : α :=
   (D.rows.zipIdx.map (fun (r, i) => (r, D.weightAt i))).foldl
     (fun acc (r, w) => if r = c.map (fun n : Nat => (n : Int)) then Scalar.add acc w else acc) Scalar.zero
 
+/-! ### generic list / fold helpers -/
+
+theorem foldl_congr_mem {β γ : Type} (f g : β → γ → β) (l : List γ) (a : β)
+    (h : ∀ acc, ∀ x ∈ l, f acc x = g acc x) : l.foldl f a = l.foldl g a := by
+  induction l generalizing a with
+  | nil => rfl
+  | cons x xs ih =>
+    simp only [List.foldl_cons]
+    rw [h a x (by simp)]
+    exact ih _ (fun acc y hy => h acc y (by simp [hy]))
+
+theorem map_getD_idxOf_self {β γ : Type} [BEq β] [LawfulBEq β] (l : List β) (hl : l.Nodup)
+    (c : List γ) (d : γ) (hc : c.length = l.length) :
+    l.map (fun a => c.getD (l.idxOf a) d) = c := by
+  apply List.ext_getElem
+  · simp [hc]
+  · intro i h1 h2
+    have hi : i < l.length := by simpa using h1
+    simp only [List.getElem_map]
+    rw [hl.idxOf_getElem i hi]
+    simp [List.getD_eq_getElem?_getD, List.getElem?_eq_getElem h2]
+
+theorem inRange_map_map {β : Type} (l : List β) (f g : β → Nat) :
+    InRange (l.map f) (l.map g) ↔ ∀ a ∈ l, g a < f a := by
+  induction l with
+  | nil => simp [InRange]
+  | cons x xs ih => simp [InRange, ih]
+
+theorem map_cast_toNat (r : List Int) (h : ∀ x ∈ r, 0 ≤ x) :
+    (r.map Int.toNat).map (fun n : Nat => (n : Int)) = r := by
+  rw [List.map_map]
+  conv => rhs; rw [← List.map_id r]
+  apply List.map_congr_left
+  intro x hx
+  have := h x hx
+  simp only [Function.comp, id]
+  omega
+
+theorem map_toNat_cast (c : List Nat) :
+    (c.map (fun n : Nat => (n : Int))).map Int.toNat = c := by
+  rw [List.map_map]
+  conv => rhs; rw [← List.map_id c]
+  apply List.map_congr_left
+  intro x hx
+  simp
+
+/-! ### rows inside the domain -/
+
+/-- positional form of "row `r` lies inside `shape`" -/
+def RowIn (shape : List Nat) (r : List Int) : Prop :=
+  r.length = shape.length ∧
+    ∀ i (hi : i < r.length), 0 ≤ r[i] ∧ (r[i]).toNat < shape.getD i 0
+
+theorem RowIn.nonneg {shape : List Nat} {r : List Int} (h : RowIn shape r) : ∀ x ∈ r, 0 ≤ x := by
+  intro x hx
+  obtain ⟨i, hi, rfl⟩ := List.getElem_of_mem hx
+  exact (h.2 i hi).1
+
+theorem RowIn.tail {n : Nat} {ns : List Nat} {v : Int} {vs : List Int}
+    (h : RowIn (n :: ns) (v :: vs)) : RowIn ns vs := by
+  refine ⟨by simpa using h.1, ?_⟩
+  intro i hi
+  have := h.2 (i+1) (by simpa using hi)
+  simpa using this
+
+theorem binOf_of_rowIn (shape : List Nat) (r : List Int) (h : RowIn shape r) :
+    binOf shape r = some (r.map Int.toNat) := by
+  induction shape generalizing r with
+  | nil =>
+    cases r with
+    | nil => rfl
+    | cons v vs => simp [RowIn] at h
+  | cons n ns ih =>
+    cases r with
+    | nil => simp [RowIn] at h
+    | cons v vs =>
+      have h0 := h.2 0 (by simp)
+      simp only [List.getElem_cons_zero, List.getD_cons_zero] at h0
+      have hb : bin1 n v = some v.toNat := by
+        unfold bin1
+        rw [if_neg (by omega), if_pos h0.2]
+      simp only [binOf, hb, ih vs h.tail, List.map_cons]
+      rfl
+
+theorem binOf_eq_iff (shape : List Nat) (r : List Int) (h : RowIn shape r) (c : List Nat) :
+    binOf shape r = some c ↔ r = c.map (fun n : Nat => (n : Int)) := by
+  rw [binOf_of_rowIn shape r h]
+  constructor
+  · intro hc
+    have hc' : r.map Int.toNat = c := by simpa using hc
+    rw [← hc', map_cast_toNat r h.nonneg]
+  · intro hr
+    rw [hr, map_toNat_cast]
+
+/-- the (record, weight) pairs of a dataset -/
+def pairs (D : Dataset α) : List (List Int × α) :=
+  D.rows.zipIdx.map (fun (r, i) => (r, D.weightAt i))
+
+theorem mem_pairs (D : Dataset α) (p : List Int × α) (h : p ∈ D.pairs) : p.1 ∈ D.rows := by
+  simp only [pairs, List.mem_map] at h
+  obtain ⟨⟨r, i⟩, hri, rfl⟩ := h
+  exact (List.mem_zipIdx hri).2.2 ▸ List.getElem_mem _
+
 theorem datavector_eq_count (D : Dataset α) (hin : D.InDomain) (c : List Nat)
     (hc : InRange D.dom.shape c) :
     D.datavector[ravel D.dom.shape c]? = some (D.tableAt c) := by
-  sorry
+  unfold datavector
+  simp only [List.getElem?_map, cells_getElem_ravel _ _ hc, Option.map_some]
+  congr 1
+  have hb : D.rows.zipIdx.map (fun (r, i) => (binOf D.dom.shape r, D.weightAt i))
+      = D.pairs.map (fun p => (binOf D.dom.shape p.1, p.2)) := by
+    simp [pairs, List.map_map, Function.comp_def]
+  rw [hb, List.foldl_map]
+  unfold tableAt
+  show D.pairs.foldl _ _ = D.pairs.foldl _ _
+  apply foldl_congr_mem
+  intro acc p hp
+  have hr : RowIn D.dom.shape p.1 := hin p.1 (mem_pairs D p hp)
+  obtain ⟨r, w⟩ := p
+  simp only [binOf_eq_iff _ _ hr c]
 
 theorem datavector_length (D : Dataset α) : D.datavector.length = D.dom.size := by
-  sorry
+  simp [datavector, length_cells, Dom.size]
 
 theorem bin1_boundary (n : Nat) (hn : 0 < n) :
     bin1 n (n : Int) = some (n - 1) ∧ bin1 n ((n : Int) + 1) = none ∧ bin1 n (-1) = none := by
-  sorry
+  refine ⟨?_, ?_, ?_⟩
+  · unfold bin1
+    rw [if_neg (by omega), if_neg (by simp), if_pos (by simp [hn])]
+  · unfold bin1
+    rw [if_neg (by omega), if_neg (by omega), if_neg (by omega)]
+  · unfold bin1
+    rw [if_pos (by omega)]
+
+/-- attribute-keyed form of `RowIn` -/
+theorem rowIn_attr (d : Dom) (hd : d.WF) (r : List Int) (h : RowIn d.shape r) :
+    r.length = d.attrs.length ∧
+      ∀ a ∈ d.attrs, 0 ≤ r.getD (d.attrs.idxOf a) 0 ∧ (r.getD (d.attrs.idxOf a) 0).toNat < d.cfg a := by
+  have hlen : r.length = d.attrs.length := by rw [h.1, Dom.length_shape, Dom.length_attrs]
+  refine ⟨hlen, ?_⟩
+  intro a ha
+  have hj : d.attrs.idxOf a < r.length := by
+    rw [hlen]; exact List.idxOf_lt_length_iff.mpr ha
+  have hg : r.getD (d.attrs.idxOf a) 0 = r[d.attrs.idxOf a] := by
+    simp [List.getD_eq_getElem?_getD, List.getElem?_eq_getElem hj]
+  have hs : d.shape.getD (d.attrs.idxOf a) 0 = d.cfg a := by
+    rw [Dom.shape_eq_map_cfg d hd]
+    exact getD_map_idxOf d.attrs d.cfg 0 a ha
+  rw [hg, ← hs]
+  exact h.2 _ hj
+
+theorem project_inDomain (D : Dataset α) (cols : List Attr) (hD : D.dom.WF) (hin : D.InDomain)
+    (hsub : ∀ a ∈ cols, a ∈ D.dom.attrs) : (D.project cols).InDomain := by
+  intro r' hr'
+  simp only [project, List.mem_map] at hr'
+  obtain ⟨r, hr, rfl⟩ := hr'
+  have hok := rowIn_attr D.dom hD r (hin r hr)
+  simp only [project, Dom.shape_project, List.length_map, true_and]
+  intro i hi
+  have hmem : cols[i] ∈ D.dom.attrs := hsub _ (List.getElem_mem hi)
+  have hs : (cols.map D.dom.cfg).getD i 0 = D.dom.cfg cols[i] := by
+    simp [List.getD_eq_getElem?_getD, List.getElem?_eq_getElem hi]
+  rw [List.getElem_map, hs]
+  exact hok.2 _ hmem
+
+/-! ### sums -/
+
+section Sums
+variable (hassoc : ∀ a b c : α, Scalar.add (Scalar.add a b) c = Scalar.add a (Scalar.add b c))
+variable (hcomm : ∀ a b : α, Scalar.add a b = Scalar.add b a)
+include hassoc hcomm
+
+theorem foldl_add_acc (l : List α) (z x : α) :
+    l.foldl Scalar.add (Scalar.add z x) = Scalar.add (l.foldl Scalar.add z) x := by
+  induction l generalizing z with
+  | nil => rfl
+  | cons y ys ih =>
+    simp only [List.foldl_cons]
+    have : Scalar.add (Scalar.add z x) y = Scalar.add (Scalar.add z y) x := by
+      rw [hassoc, hcomm x y, ← hassoc]
+    rw [this, ih]
+
+theorem sum_cons (x : α) (l : List α) :
+    Scalar.sum (x :: l) = Scalar.add (Scalar.sum l) x := by
+  unfold Scalar.sum
+  rw [List.foldl_cons, foldl_add_acc hassoc hcomm]
+
+/-- adding `w` to one summand (the one at `v0`) adds `w` to the sum -/
+theorem sum_update {γ : Type} [DecidableEq γ] (vs : List γ) (hvs : vs.Nodup) (v0 : γ) (hv0 : v0 ∈ vs)
+    (A : γ → α) (w : α) :
+    Scalar.sum (vs.map (fun v => if v = v0 then Scalar.add (A v) w else A v))
+      = Scalar.add (Scalar.sum (vs.map A)) w := by
+  induction vs with
+  | nil => simp at hv0
+  | cons v vs ih =>
+    rw [List.nodup_cons] at hvs
+    simp only [List.map_cons]
+    rw [sum_cons hassoc hcomm, sum_cons hassoc hcomm]
+    by_cases hv : v = v0
+    · subst hv
+      have : vs.map (fun u => if u = v then Scalar.add (A u) w else A u) = vs.map A := by
+        apply List.map_congr_left
+        intro u hu
+        have : u ≠ v := fun h => hvs.1 (h ▸ hu)
+        simp [this]
+      rw [this, if_pos rfl, hassoc]
+    · have hmem : v0 ∈ vs := by
+        rcases List.mem_cons.mp hv0 with h | h
+        · exact absurd h.symm hv
+        · exact h
+      rw [ih hvs.2 hmem, if_neg hv, hassoc, hcomm w (A v), ← hassoc]
+
+end Sums
+
+theorem nodup_cells (s : List Nat) : (cells s).Nodup := by
+  induction s with
+  | nil => simp [cells]
+  | cons n ns ih =>
+    simp only [cells]
+    unfold List.Nodup
+    rw [List.pairwise_flatMap]
+    refine ⟨?_, ?_⟩
+    · intro i _
+      exact nodup_map_of_inj_on _ _ ih (fun x _ y _ h => by simpa using h)
+    · apply List.Pairwise.imp _ List.nodup_range
+      intro i j hij x hx y hy hxy
+      simp only [List.mem_map] at hx hy
+      obtain ⟨x', _, rfl⟩ := hx
+      obtain ⟨y', _, rfl⟩ := hy
+      simp only [List.cons.injEq] at hxy
+      exact hij hxy.1
+
+/-- the full-domain cell assembled from a projected cell `c'` and values `v` of the dropped attributes -/
+def cellOf (d : Dom) (cols : List Attr) (c' v : List Nat) : List Nat :=
+  d.attrs.map (Dom.override (Dom.assign cols c') (d.invert cols) v)
+
+/-- the projection of a record -/
+def projRow (d : Dom) (cols : List Attr) (r : List Int) : List Int :=
+  cols.map (fun a => r.getD (d.attrs.idxOf a) 0)
+
+/-- the values of a record on the dropped attributes -/
+def restOf (d : Dom) (cols : List Attr) (r : List Int) : List Nat :=
+  (d.invert cols).map (fun a => (r.getD (d.attrs.idxOf a) 0).toNat)
+
+theorem mem_invert (d : Dom) (cols : List Attr) (a : Attr) :
+    a ∈ d.invert cols ↔ a ∈ d.attrs ∧ a ∉ cols := by
+  simp [Dom.invert]
+
+theorem nodup_invert (d : Dom) (hd : d.WF) (cols : List Attr) : (d.invert cols).Nodup :=
+  List.Nodup.sublist List.filter_sublist hd
+
+theorem getD_cellOf (d : Dom) (cols : List Attr) (c' v : List Nat) (a : Attr) (ha : a ∈ d.attrs) :
+    ((cellOf d cols c' v).map (fun n : Nat => (n : Int))).getD (d.attrs.idxOf a) 0
+      = ((Dom.override (Dom.assign cols c') (d.invert cols) v a : Nat) : Int) := by
+  unfold cellOf
+  rw [List.map_map]
+  exact getD_map_idxOf d.attrs _ 0 a ha
+
+theorem restOf_mem_cells (d : Dom) (hd : d.WF) (cols : List Attr) (r : List Int)
+    (hr : RowIn d.shape r) : restOf d cols r ∈ cells ((d.invert cols).map d.cfg) := by
+  rw [mem_cells_iff]
+  unfold restOf
+  rw [inRange_map_map]
+  intro a ha
+  exact ((rowIn_attr d hd r hr).2 a ((mem_invert d cols a).mp ha).1).2
+
+/-- the assembled cell equals the record iff the record projects to `c'` and `v` is its rest -/
+theorem eq_cellOf_iff (d : Dom) (hd : d.WF) (cols : List Attr) (hcols : cols.Nodup)
+    (hsub : ∀ a ∈ cols, a ∈ d.attrs) (c' : List Nat) (hc' : c'.length = cols.length)
+    (r : List Int) (hr : RowIn d.shape r) (v : List Nat) (hv : v.length = (d.invert cols).length) :
+    r = (cellOf d cols c' v).map (fun n : Nat => (n : Int)) ↔
+      (projRow d cols r = c'.map (fun n : Nat => (n : Int)) ∧ v = restOf d cols r) := by
+  have hok := rowIn_attr d hd r hr
+  constructor
+  · intro h
+    constructor
+    · unfold projRow
+      have h1 : cols.map (fun a => r.getD (d.attrs.idxOf a) 0)
+          = cols.map (fun a => ((c'.getD (cols.idxOf a) 0 : Nat) : Int)) := by
+        apply List.map_congr_left
+        intro a ha
+        rw [h, getD_cellOf d cols c' v a (hsub a ha)]
+        have hni : a ∉ d.invert cols := fun hm => ((mem_invert d cols a).mp hm).2 ha
+        simp [Dom.override, Dom.assign, hni, ha]
+      rw [h1]
+      have h2 := map_getD_idxOf_self cols hcols c' 0 hc'
+      have h3 := congrArg (List.map (fun n : Nat => (n : Int))) h2
+      rw [List.map_map] at h3
+      exact h3
+    · unfold restOf
+      have h1 : (d.invert cols).map (fun a => (r.getD (d.attrs.idxOf a) 0).toNat)
+          = (d.invert cols).map (fun a => v.getD ((d.invert cols).idxOf a) 0) := by
+        apply List.map_congr_left
+        intro a ha
+        rw [h, getD_cellOf d cols c' v a ((mem_invert d cols a).mp ha).1]
+        simp [Dom.override, ha]
+      rw [h1]
+      exact (map_getD_idxOf_self _ (nodup_invert d hd cols) v 0 hv).symm
+  · intro ⟨hq, hv0⟩
+    subst hv0
+    have h1 : r = d.attrs.map (fun a => r.getD (d.attrs.idxOf a) 0) :=
+      (map_getD_idxOf_self d.attrs hd r 0 hok.1).symm
+    unfold cellOf
+    rw [List.map_map]
+    conv => lhs; rw [h1]
+    apply List.map_congr_left
+    intro a ha
+    simp only [Function.comp]
+    by_cases hc : a ∈ cols
+    · have hni : a ∉ d.invert cols := fun hm => ((mem_invert d cols a).mp hm).2 hc
+      have h2 := congrArg (fun l => l.getD (cols.idxOf a) 0) hq
+      simp only [projRow] at h2
+      rw [getD_map_idxOf cols _ 0 a hc] at h2
+      rw [h2]
+      have hlt : cols.idxOf a < c'.length := by
+        rw [hc']; exact List.idxOf_lt_length_iff.mpr hc
+      simp [Dom.override, Dom.assign, hni, hc, List.getD_eq_getElem?_getD,
+        List.getElem?_eq_getElem hlt]
+    · have hi : a ∈ d.invert cols := (mem_invert d cols a).mpr ⟨ha, hc⟩
+      have h2 : (restOf d cols r).getD ((d.invert cols).idxOf a) 0
+          = (r.getD (d.attrs.idxOf a) 0).toNat := getD_map_idxOf _ _ 0 a hi
+      have h3 := (hok.2 a ha).1
+      simp only [Dom.override, hi, List.contains_iff_mem, if_true, h2]
+      omega
+
+/-- fold of the table over explicit (record, weight) pairs -/
+def tbl (L : List (List Int × α)) (c : List Nat) (z : α) : α :=
+  L.foldl (fun acc (p : List Int × α) =>
+    if p.1 = c.map (fun n : Nat => (n : Int)) then Scalar.add acc p.2 else acc) z
+
+theorem tbl_project (d : Dom) (hd : d.WF) (cols : List Attr) (hcols : cols.Nodup)
+    (hsub : ∀ a ∈ cols, a ∈ d.attrs) (c' : List Nat) (hc' : c'.length = cols.length)
+    (hassoc : ∀ a b c : α, Scalar.add (Scalar.add a b) c = Scalar.add a (Scalar.add b c))
+    (hcomm : ∀ a b : α, Scalar.add a b = Scalar.add b a)
+    (L : List (List Int × α)) (hL : ∀ p ∈ L, RowIn d.shape p.1) (A : List Nat → α) :
+    Scalar.sum ((cells ((d.invert cols).map d.cfg)).map (fun v => tbl L (cellOf d cols c' v) (A v)))
+      = tbl (L.map (fun p => (projRow d cols p.1, p.2))) c'
+          (Scalar.sum ((cells ((d.invert cols).map d.cfg)).map A)) := by
+  induction L generalizing A with
+  | nil => rfl
+  | cons p L ih =>
+    obtain ⟨r, w⟩ := p
+    have hr : RowIn d.shape r := hL (r, w) (by simp)
+    simp only [tbl, List.foldl_cons, List.map_cons]
+    have ih' := ih (fun q hq => hL q (by simp [hq]))
+      (fun v => if r = (cellOf d cols c' v).map (fun n : Nat => (n : Int)) then Scalar.add (A v) w else A v)
+    simp only [tbl] at ih'
+    rw [ih']
+    congr 1
+    by_cases hq : projRow d cols r = c'.map (fun n : Nat => (n : Int))
+    · rw [if_pos hq]
+      rw [← sum_update hassoc hcomm _ (nodup_cells _) (restOf d cols r)
+        (restOf_mem_cells d hd cols r hr) A w]
+      congr 1
+      apply List.map_congr_left
+      intro v hv
+      have hvl : v.length = (d.invert cols).length := by
+        have := ((mem_cells_iff _ _).mp hv).length_eq
+        simpa using this
+      have := eq_cellOf_iff d hd cols hcols hsub c' hc' r hr v hvl
+      by_cases hv0 : v = restOf d cols r
+      · rw [if_pos hv0, if_pos (this.mpr ⟨hq, hv0⟩)]
+      · rw [if_neg hv0, if_neg (fun h => hv0 (this.mp h).2)]
+    · rw [if_neg hq]
+      congr 1
+      apply List.map_congr_left
+      intro v hv
+      have hvl : v.length = (d.invert cols).length := by
+        have := ((mem_cells_iff _ _).mp hv).length_eq
+        simpa using this
+      have := eq_cellOf_iff d hd cols hcols hsub c' hc' r hr v hvl
+      rw [if_neg (fun h => hq (this.mp h).1)]
+
+theorem sum_map_zero (hzero : ∀ a : α, Scalar.add Scalar.zero a = a) {γ : Type} (vs : List γ) :
+    Scalar.sum (vs.map (fun _ => (Scalar.zero : α))) = Scalar.zero := by
+  unfold Scalar.sum
+  induction vs with
+  | nil => rfl
+  | cons v vs ih => simp only [List.map_cons, List.foldl_cons, hzero]; exact ih
+
+theorem tableAt_eq_tbl (D : Dataset α) (c : List Nat) : D.tableAt c = tbl D.pairs c Scalar.zero := rfl
+
+theorem pairs_project (D : Dataset α) (cols : List Attr) :
+    (D.project cols).pairs = D.pairs.map (fun p => (projRow D.dom cols p.1, p.2)) := by
+  simp only [pairs, project, List.zipIdx_map, List.map_map]
+  apply List.map_congr_left
+  intro ⟨r, i⟩ _
+  rfl
 
 theorem datavector_project_comm (D : Dataset α) (cols : List Attr)
     (hassoc : ∀ a b c : α, Scalar.add (Scalar.add a b) c = Scalar.add a (Scalar.add b c))
@@ -43,11 +422,15 @@ theorem datavector_project_comm (D : Dataset α) (cols : List Attr)
     (D.project cols).tableAt c' =
       Scalar.sum ((cells ((D.dom.invert cols).map D.dom.cfg)).map
         (fun v => D.tableAt (D.dom.attrs.map (Dom.override (Dom.assign cols c') (D.dom.invert cols) v)))) := by
-  sorry
-
-theorem project_inDomain (D : Dataset α) (cols : List Attr) (hD : D.dom.WF) (hin : D.InDomain)
-    (hsub : ∀ a ∈ cols, a ∈ D.dom.attrs) : (D.project cols).InDomain := by
-  sorry
+  have hlen : c'.length = cols.length := by
+    have := hc'.length_eq
+    simpa using this
+  have hL : ∀ p ∈ D.pairs, RowIn D.dom.shape p.1 := fun p hp => hin p.1 (mem_pairs D p hp)
+  have key := tbl_project D.dom hD cols hcols hsub c' hlen hassoc hcomm D.pairs hL
+    (fun _ => Scalar.zero)
+  rw [sum_map_zero hzero] at key
+  rw [tableAt_eq_tbl, pairs_project, ← key]
+  rfl
 
 end Dataset
 
@@ -56,38 +439,149 @@ namespace Dom
 theorem project_project (d : Dom) (as bs : List Attr) (hd : d.WF) (has : as.Nodup)
     (hsub : ∀ b ∈ bs, b ∈ as) (hsub' : ∀ a ∈ as, a ∈ d.attrs) :
     (d.project as).project bs = d.project bs := by
-  sorry
+  unfold project
+  apply List.map_congr_left
+  intro b hb
+  have := cfg_project d as b (hsub b hb)
+  unfold project at this
+  rw [this]
 
 theorem merge_attrs (d o : Dom) (ho : o.WF) :
-    (d.merge o).attrs = d.attrs ++ o.attrs.filter (fun a => !d.attrs.contains a) := by
-  sorry
+    (d.merge o).attrs = d.attrs ++ o.attrs.filter (fun a => !d.attrs.contains a) :=
+  attrs_merge d o
+
+theorem size_append (s t : List Nat) : PGM.size (s ++ t) = PGM.size s * PGM.size t := by
+  induction s with
+  | nil => simp [PGM.size]
+  | cons n ns ih => simp [PGM.size, ih, Nat.mul_assoc]
 
 theorem size_merge (d o : Dom) : (d.merge o).size = d.size * (o.marginalize d.attrs).size := by
-  sorry
+  simp only [size, merge, shape, List.map_append, size_append]
+
+theorem size_filter_mul (l : List Attr) (f : Attr → Nat) (p : Attr → Bool) :
+    PGM.size ((l.filter p).map f) * PGM.size ((l.filter (fun a => !p a)).map f)
+      = PGM.size (l.map f) := by
+  induction l with
+  | nil => simp [PGM.size]
+  | cons a as ih =>
+    cases h : p a
+    · simp only [List.filter_cons, h, Bool.not_false, List.map_cons, PGM.size, if_true]
+      rw [← ih]
+      simp only [Bool.false_eq_true, if_false]
+      rw [Nat.mul_left_comm]
+    · simp only [List.filter_cons, h, Bool.not_true, List.map_cons, PGM.size, if_true]
+      rw [← ih]
+      simp only [Bool.false_eq_true, if_false]
+      rw [Nat.mul_assoc]
 
 theorem size_project_mul_size_marginalize (d : Dom) (as : List Attr) (hd : d.WF) :
     (d.project (d.canonical as)).size * (d.marginalize as).size = d.size := by
-  sorry
+  simp only [size, marginalize, shape_project, canonical, invert]
+  rw [shape_eq_map_cfg d hd]
+  exact size_filter_mul d.attrs d.cfg (fun a => as.contains a)
 
-theorem canonical_sublist (d : Dom) (as : List Attr) : (d.canonical as).Sublist d.attrs := by
-  sorry
+theorem canonical_sublist (d : Dom) (as : List Attr) : (d.canonical as).Sublist d.attrs :=
+  List.filter_sublist
 
 theorem invert_canonical_partition (d : Dom) (as : List Attr) :
     ∀ a ∈ d.attrs, (a ∈ d.canonical as ∧ a ∉ d.invert as) ∨ (a ∉ d.canonical as ∧ a ∈ d.invert as) := by
-  sorry
+  intro a ha
+  by_cases h : a ∈ as
+  · left; simp [canonical, invert, ha, h]
+  · right; simp [canonical, invert, ha, h]
+
+theorem insertBy_perm {β : Type} (key : β → Nat) (x : β) (l : List β) :
+    (insertBy key x l).Perm (x :: l) := by
+  induction l with
+  | nil => simp [insertBy]
+  | cons y ys ih =>
+    simp only [insertBy]
+    split
+    · exact List.Perm.refl _
+    · exact (List.Perm.cons y ih).trans (List.Perm.swap x y ys)
+
+theorem foldl_insertBy_perm {β : Type} (key : β → Nat) (l acc : List β) :
+    (l.foldl (fun acc x => insertBy key x acc) acc).Perm (l ++ acc) := by
+  induction l generalizing acc with
+  | nil => simp
+  | cons x xs ih =>
+    simp only [List.foldl_cons]
+    refine (ih _).trans ?_
+    refine (List.Perm.append_left xs (insertBy_perm key x acc)).trans ?_
+    simp only [List.cons_append]
+    exact List.perm_middle
+
+theorem sortBy_perm {β : Type} (key : β → Nat) (l : List β) : (sortBy key l).Perm l := by
+  have := foldl_insertBy_perm key l []
+  simpa [sortBy] using this
+
+theorem insertBy_sorted {β : Type} (key : β → Nat) (x : β) (l : List β)
+    (h : l.Pairwise (fun a b => key a ≤ key b)) :
+    (insertBy key x l).Pairwise (fun a b => key a ≤ key b) := by
+  induction l with
+  | nil => simp [insertBy]
+  | cons y ys ih =>
+    simp only [insertBy]
+    rw [List.pairwise_cons] at h
+    split
+    · rename_i hlt
+      rw [List.pairwise_cons]
+      refine ⟨?_, List.pairwise_cons.mpr h⟩
+      intro b hb
+      rcases List.mem_cons.mp hb with rfl | hb
+      · omega
+      · have := h.1 b hb; omega
+    · rename_i hlt
+      rw [List.pairwise_cons]
+      refine ⟨?_, ih h.2⟩
+      intro b hb
+      have hb' := (insertBy_perm key x ys).mem_iff.mp hb
+      rcases List.mem_cons.mp hb' with rfl | hb'
+      · omega
+      · exact h.1 b hb'
+
+theorem sortBy_sorted {β : Type} (key : β → Nat) (l : List β) :
+    (sortBy key l).Pairwise (fun a b => key a ≤ key b) := by
+  unfold sortBy
+  suffices ∀ acc : List β, acc.Pairwise (fun a b => key a ≤ key b) →
+      (l.foldl (fun acc x => insertBy key x acc) acc).Pairwise (fun a b => key a ≤ key b) from
+    this [] List.Pairwise.nil
+  induction l with
+  | nil => intro acc h; simpa using h
+  | cons x xs ih => intro acc h; exact ih _ (insertBy_sorted key x acc h)
+
+theorem project_attrs_self (d : Dom) (hd : d.WF) : d.project d.attrs = d := by
+  unfold project attrs
+  rw [List.map_map]
+  conv => rhs; rw [← List.map_id d]
+  apply List.map_congr_left
+  intro p hp
+  have := cfg_of_mem d hd p hp
+  simp [this]
 
 theorem sortSize_perm (d : Dom) (hd : d.WF) : d.sortSize.Perm d := by
-  sorry
+  have h1 : (sortBy (fun a => d.cfg a) d.attrs).Perm d.attrs := sortBy_perm _ _
+  have h2 := h1.map (fun a => (a, d.cfg a))
+  have h3 := project_attrs_self d hd
+  unfold project at h3
+  rw [h3] at h2
+  exact h2
 
 theorem sortSize_sorted (d : Dom) (hd : d.WF) : d.sortSize.shape.Pairwise (· ≤ ·) := by
-  sorry
+  unfold sortSize
+  rw [shape_project, List.pairwise_map]
+  exact sortBy_sorted (fun a => d.cfg a) d.attrs
 
-theorem contains_iff_subset (d o : Dom) : d.contains o = true ↔ ∀ a ∈ o.attrs, a ∈ d.attrs := by
-  sorry
+theorem contains_iff_subset (d o : Dom) : d.contains o = true ↔ ∀ a ∈ o.attrs, a ∈ d.attrs :=
+  contains_iff d o
 
 theorem axes_index (d : Dom) (as : List Attr) (hsub : ∀ a ∈ as, a ∈ d.attrs) (i : Nat) (hi : i < as.length) :
     d.attrs[(d.axes as).getD i 0]? = as[i]? := by
-  sorry
+  have h1 : (d.axes as).getD i 0 = d.attrs.idxOf as[i] := by
+    simp [axes, List.getD_eq_getElem?_getD, List.getElem?_eq_getElem hi]
+  have hlt : d.attrs.idxOf as[i] < d.attrs.length :=
+    List.idxOf_lt_length_iff.mpr (hsub _ (List.getElem_mem hi))
+  rw [h1, List.getElem?_eq_getElem hlt, List.getElem?_eq_getElem hi, List.getElem_idxOf hlt]
 
 end Dom
 end PGM
